@@ -5,6 +5,7 @@ package main
 import (
 	"encoding/json"
 	"fmt"
+	"math"
 
 	"github.com/golang/geo/s1"
 	"github.com/golang/geo/s2"
@@ -82,6 +83,30 @@ func opSign(raw json.RawMessage, o *Out) {
 				if t := int(s2.VerifExpensiveSign(a, b, cc)); t != c.Want {
 					o.Fail("sign/expensive/"+class, "expensiveSign(%v,%v,%v) %s = %d, model %d", c.A, c.B, c.C, tag, t, c.Want)
 				}
+			}
+		}
+	}
+	// negative zeros: -0 == +0 as coordinates, so the same points with some zero coordinates
+	// written as -0 must get the same answers (the perturbation order must not see the sign bit)
+	{
+		nz := func(p s2.Point, mask int) s2.Point {
+			z := math.Copysign(0, -1)
+			if p.X == 0 && mask&1 != 0 {
+				p.X = z
+			}
+			if p.Y == 0 && mask&2 != 0 {
+				p.Y = z
+			}
+			if p.Z == 0 && mask&4 != 0 {
+				p.Z = z
+			}
+			return p
+		}
+		a, b, cc := emb.Dyadic(c.A, 3), emb.Dyadic(c.B, 3), emb.Dyadic(c.C, 3)
+		for _, m := range [][3]int{{7, 0, 0}, {0, 7, 0}, {0, 0, 7}, {5, 2, 7}, {7, 7, 7}} {
+			na, nb, nc := nz(a, m[0]), nz(b, m[1]), nz(cc, m[2])
+			if got := int(s2.RobustSign(na, nb, nc)); got != c.Want {
+				o.Fail("sign/negative-zero/"+class, "RobustSign(%v,%v,%v) with zero coordinates written as -0 (mask %v) = %d, model %d", c.A, c.B, c.C, m, got, c.Want)
 			}
 		}
 	}
